@@ -156,26 +156,55 @@ type longLivedHandlers struct {
 
 var (
 	longLivedMu   sync.Mutex
-	longLivedRing [256]*longLivedHandlers // the most recently observed middlewares (older ones are simply re-wrapped)
+	longLivedBy   = map[*cors.Middleware]*longLivedHandlers{}
+	longLivedRing [4096]*longLivedHandlers // the most recently observed middlewares (older ones are simply re-wrapped)
 	longLivedNext int
 )
 
 func longLived(m *cors.Middleware) *longLivedHandlers {
 	longLivedMu.Lock()
 	defer longLivedMu.Unlock()
-	for _, e := range longLivedRing {
-		if e != nil && e.m == m {
-			return e
-		}
+	if e := longLivedBy[m]; e != nil {
+		return e
 	}
 	e := &longLivedHandlers{m: m}
 	for k := range e.h {
 		e.fwd[k] = &forward{}
 		e.h[k] = m.Wrap(e.fwd[k])
 	}
-	longLivedRing[longLivedNext%len(longLivedRing)] = e
-	longLivedNext++
+	longLivedRemember(e)
 	return e
+}
+
+func longLivedRemember(e *longLivedHandlers) {
+	slot := longLivedNext % len(longLivedRing)
+	if old := longLivedRing[slot]; old != nil && longLivedBy[old.m] == old {
+		delete(longLivedBy, old.m)
+	}
+	longLivedRing[slot], longLivedBy[e.m] = e, e
+	longLivedNext++
+}
+
+// rewrapLongLived replaces long-lived handler k of m by one obtained from Wrap now (whatever state m is in now);
+// observe will use it from here on.
+func rewrapLongLived(m *cors.Middleware, k int) {
+	e := longLived(m)
+	longLivedMu.Lock()
+	defer longLivedMu.Unlock()
+	e.fwd[k] = &forward{}
+	e.h[k] = m.Wrap(e.fwd[k])
+}
+
+// adoptLongLived makes a handler that was obtained from m.Wrap earlier (an "early" handler of the construction
+// routes) the first long-lived handler of m: every later observe sends a third of its requests through it.
+func adoptLongLived(m *cors.Middleware, h http.Handler, fwd *forward) {
+	longLivedMu.Lock()
+	defer longLivedMu.Unlock()
+	e := &longLivedHandlers{m: m}
+	e.h[0], e.fwd[0] = h, fwd
+	e.fwd[1] = &forward{}
+	e.h[1] = m.Wrap(e.fwd[1])
+	longLivedRemember(e)
 }
 
 // observeBoth serves the suite with debug off and then on (it leaves debug on).
@@ -277,12 +306,19 @@ func (b built) wrap(inner http.Handler) http.Handler {
 func buildViaH(route int, lit CfgLit, debug bool, extra ...vlib.Req) (built, error) {
 	var early *earlyWrap
 	m, err := buildVia0(route, lit, debug, &early, extra...)
+	if err == nil && m != nil && early != nil {
+		adoptLongLived(m, early.h, early.fwd)
+	}
 	return built{m, early}, err
 }
 
 func buildVia(route int, lit CfgLit, debug bool, extra ...vlib.Req) (*cors.Middleware, error) {
 	var early *earlyWrap
-	return buildVia0(route, lit, debug, &early, extra...)
+	m, err := buildVia0(route, lit, debug, &early, extra...)
+	if err == nil && m != nil && early != nil {
+		adoptLongLived(m, early.h, early.fwd)
+	}
+	return m, err
 }
 
 var routeOther = CfgLit{Origins: []string{"https://*.example:*", "http://*.example:*", "https://*.b:*", "https://*.a:*", "https://a.b", "https://a.example"}, Credentialed: true, TolInsecure: true, TolPSL: true,
